@@ -624,6 +624,17 @@ def _exp_reaction(M, k, rx, robj, f, units_obj):
         else:
             A = rx['A'] if rx['A'] is not None else robj.get_A(
                 T=T, P=P, include_entropy=False, units='%s/%s2' % (u['quantity'], u['length']))
+            if rx['A'] is None:
+                # witnessed from the reactant objects, not from get_A itself (seed C07-13: a reactant with
+                # coefficient 2 contributes its site density twice): kb/h over (sum of stoich x site density)^(n-1)
+                from pmutt import constants as c
+                from pmutt.omkm.phase import InteractingInterface
+                surf = [(int(st), sp.phase.site_density) for sp, st in zip(robj.reactants, robj.reactants_stoich)
+                        if isinstance(getattr(sp, 'phase', None), InteractingInterface)]
+                if surf:
+                    sden = sum(st * sd for st, sd in surf) * c.convert_unit(initial='mol', final=u['quantity']) \
+                        / c.convert_unit(initial='cm2', final='%s2' % u['length'])
+                    A = c.kb('J/K') / c.h('J s') / sden ** (sum(st for st, _ in surf) - 1)
             e['A'] = to_dec(A)
             Ea = (rx['Ea'] * f['fE']) if rx['Ea'] is not None else robj.get_G_act(units=u['act_energy'], T=T, P=P)
         e['Ea'] = to_dec(Ea)
